@@ -47,6 +47,11 @@ THEOREMS = [
     "C09.string_op_subgoal_proven_in_never",
     "C09.rebuild_eq_new",
     "C09.hist_complete_partial",
+    # U09: coverage of the candidates an engine STATE computes (arbitrary names, disabled rules) — no Covers hypothesis left
+    "C09.subCandsHist_covers",
+    "C09.topCandsHist_covers",
+    "C09.kbStep_names_nodup",
+    "C09.hist_complete_full_holds",
 ]
 LEAN_TARGETS = ["RreModel.C09.Theorems", "RreModel.C09.ExtTheorems", "RreModel.C09.HistTheorems", "RreModel.C09.ValTheorems"]
 N = {"quick": 1500, "thorough": 20000}
@@ -93,6 +98,14 @@ RULE = ("cases = corpus (defect witnesses) + N generated problems (50% consisten
         "Matches and In in rule conditions that become sub-goals (the pattern text condition_to_goal_pattern prints and parse_goal_pattern / "
         "parse_value_string read back is modelled on the text: C09.reparse), string literals containing operator text, quotes, blanks "
         "(`%hh` escapes; a lone `\"` behind a cut panicked before fix F-C09i), random KBs over all value classes and all twelve operators. "
+        "+ N/10 DEAD-END problems (U09), each at the sufficient depth with max_solutions 1, at depth +0..2 with 1 / 3, and under BFS / iterative: "
+        "`P0 && P1 [&& P2] => G`, every conjunct derivable through a chain of 1..3 rules (derivation height 2..4), and dead-end rules - every value "
+        "they assign is wanted by no condition and not by the goal - that assign a LATER conjunct's field (or an intermediate field of its chain) "
+        "TOGETHER WITH the fields of sibling conjuncts proven before (sometimes the input too), ordered BEFORE the rule that really proves that "
+        "conjunct, their own condition the input or a proven sibling; oracle clause (iv-c) `incomplete-deadend`: DFS, all-conjunctive KB without "
+        "Integer condition literals, the KB WITHOUT its dead-end rules consistent-Horn and the goal derivable there within max_depth => provable "
+        "(a dead end tried as a candidate is rolled back with everything it overwrote, also keys an ENCLOSING frame recorded earlier; checked "
+        "before (iv-b), whose failures are the known finding F-C09e). "
         "Each case runs BackwardEngine::query on a fresh engine (real code); observed: provable, "
         "get_all_facts after, undo depth after (hook), #solutions. Oracles evaluated by the Lean driver on the implementation's "
         "observations, none of them running the search model: (i) provable => goal comparison true in the facts handed back; "
